@@ -57,6 +57,7 @@ type c17Result struct {
 	Late    int // Allow retried because the loop goroutine was late
 	Near    int // operations within 5 ms of an offer instant
 	Config  int // effective reconfigurations
+	Anomaly int // timing anomalies that a descheduled process would also produce (case is re-run)
 }
 
 const (
@@ -105,6 +106,7 @@ func c17Run(p c17Plan, rnd *rand.Rand) c17Result {
 	// away from / at the threshold and to decide on retries; the verdict is the model's)
 	dueAt := res.TCreate
 	lastAdmit := int64(0)
+	lastRet := res.TCreate // return instant of the latest admission
 	afterAdmission := func(nAdm int) snap {
 		// wait until the stamp(s) are visible, then give the loop time to compute its next offer
 		deadline := time.Now().Add(2 * time.Second)
@@ -121,7 +123,7 @@ func c17Run(p c17Plan, rnd *rand.Rand) c17Result {
 		if len(s.ring) > 0 && s.cursor >= 0 && s.cursor < len(s.ring) {
 			dueAt = s.ring[s.cursor] + s.window
 		} else {
-			dueAt = now()
+			dueAt = lastRet // unlimited: the loop offers again at once
 		}
 		lastAdmit = now()
 		return s
@@ -164,6 +166,10 @@ func c17Run(p c17Plan, rnd *rand.Rand) c17Result {
 				add(c17Obs{Tag: 9, C: c, E: e, Note: "Wait did not return within 15 s"}, take())
 				return res
 			}
+			lastRet = e
+			if e-max(c, dueAt) > int64(15*time.Millisecond) {
+				res.Anomaly++
+			}
 			add(c17Obs{Tag: 0, C: c, E: e, Res: 1}, afterAdmission(1))
 		case "allow":
 			slack := dueAt - now()
@@ -187,6 +193,7 @@ func c17Run(p c17Plan, rnd *rand.Rand) c17Result {
 					ok = r.Allow()
 					e = now()
 				}
+				res.Anomaly++
 				if ok {
 					res.Late++
 					note = "late offer: Allow retried"
@@ -194,6 +201,7 @@ func c17Run(p c17Plan, rnd *rand.Rand) c17Result {
 			}
 			nearDue(c)
 			if ok {
+				lastRet = e
 				add(c17Obs{Tag: 1, C: c, E: e, Res: 1, Note: note}, afterAdmission(1))
 			} else {
 				add(c17Obs{Tag: 1, C: c, E: e, Res: 0}, take())
@@ -201,6 +209,9 @@ func c17Run(p c17Plan, rnd *rand.Rand) c17Result {
 		case "sleep":
 			c := now()
 			time.Sleep(time.Duration(op.Ms) * time.Millisecond)
+			if now()-c-int64(time.Duration(op.Ms)*time.Millisecond) > int64(15*time.Millisecond) {
+				res.Anomaly++
+			}
 			add(c17Obs{Tag: 2, Arg: int64(op.Ms), C: c, E: now()}, take())
 		case "setmax", "setwin":
 			// keep clear of the loop's "record, then compute the next offer" after an admission
@@ -237,6 +248,7 @@ func c17Run(p c17Plan, rnd *rand.Rand) c17Result {
 			e := now()
 			nearDue(c)
 			if err == nil {
+				lastRet = e
 				add(c17Obs{Tag: 5, C: c, E: e, Res: 1}, afterAdmission(1))
 			} else {
 				add(c17Obs{Tag: 5, C: c, E: e, Res: 0}, take())
@@ -273,10 +285,15 @@ func c17Run(p c17Plan, rnd *rand.Rand) c17Result {
 			if tc == 0 {
 				tc = c + int64(d)
 			}
+			if tc-(c+int64(d)) > int64(10*time.Millisecond) || (err != nil && e-tc > int64(10*time.Millisecond)) ||
+				(err == nil && e-max(c, dueAt) > int64(15*time.Millisecond)) {
+				res.Anomaly++ // cancellation timer or return late
+			}
 			if err == nil {
 				if dueAt > c {
 					res.Waited++
 				}
+				lastRet = e
 				add(c17Obs{Tag: 6, Arg: int64(d), C: c, E: e, Res: 1, Extra: []int64{tc}}, afterAdmission(1))
 			} else {
 				add(c17Obs{Tag: 6, Arg: int64(d), C: c, E: e, Res: 0, Extra: []int64{tc}}, take())
@@ -345,6 +362,7 @@ func c17Run(p c17Plan, rnd *rand.Rand) c17Result {
 			}
 			close(stopPoll)
 			<-pollDone
+			lastRet = e
 			s := afterAdmission(op.N)
 			collect(s)
 			var stamps []int64
@@ -563,6 +581,11 @@ func runC17(tier string, seed int64, outdir string, replay string) error {
 		}
 	}
 	results := make([]c17Result, len(jobs))
+	stalled := make([]bool, len(jobs))
+	mon := startStallMonitor()
+	defer mon.Stop()
+	var mu sync.Mutex
+	reruns, skipped := 0, 0
 	sem := make(chan struct{}, 8)
 	var wg sync.WaitGroup
 	for i := range jobs {
@@ -571,13 +594,30 @@ func runC17(tier string, seed int64, outdir string, replay string) error {
 		go func(i int) {
 			defer wg.Done()
 			defer func() { <-sem }()
-			results[i] = c17Run(jobs[i].plan, rand.New(rand.NewSource(jobs[i].seed)))
+			for try := 0; try < 3; try++ {
+				t0 := time.Now()
+				results[i] = c17Run(jobs[i].plan, rand.New(rand.NewSource(jobs[i].seed+int64(try))))
+				stalled[i] = mon.MaxGap(t0, time.Now()) > 10*time.Millisecond
+				if !stalled[i] && results[i].Anomaly == 0 {
+					break
+				}
+				mu.Lock()
+				reruns++
+				mu.Unlock()
+			}
 		}(i)
 	}
 	wg.Wait()
 	late, near := 0, 0
 	for i, j := range jobs {
 		res := results[i]
+		if stalled[i] && replay == "" {
+			// the process itself was not scheduled for > 10 ms in each of three runs of this case:
+			// its timing says nothing about the limiter
+			skipped++
+			w.Hist("skipped_stalled")
+			continue
+		}
 		late += res.Late
 		near += res.Near
 		pj, _ := json.Marshal(j.plan)
@@ -613,7 +653,7 @@ func runC17(tier string, seed int64, outdir string, replay string) error {
 			In: j.plan, Obs: res.Obs, Wire: c17Wire(j.plan, res),
 			Nontrivial: res.Waited > 0 || res.Config > 0, Key: string(pj)})
 	}
-	w.Meta.Extra = map[string]any{"late_offer_retries": late, "operations_within_5ms_of_an_offer_instant (either outcome accepted)": near,
+	w.Meta.Extra = map[string]any{"cases_rerun_after_a_timing_anomaly_or_stall": reruns, "cases_skipped_stalled": skipped, "late_offer_retries": late, "operations_within_5ms_of_an_offer_instant (either outcome accepted)": near,
 		"window_range_ms": "50-300 (and 0)", "concurrency": 8}
 	w.Meta.Notes = append(w.Meta.Notes,
 		"times are nanoseconds on the monotonic clock, origin one hour before the limiter was created (an empty slot is 0)",
